@@ -1210,7 +1210,29 @@ static void script_vnaproperty_retype(Script &S) {
     PDEL(0, "l[0]");                   // removes it, shifting the map cell down
     PSET(0, "l=flat");                 // whole list  -> scalar
     PSET(0, "l[0].deep[1].er=1");      // scalar -> list -> map -> list -> map in one call
+    // descriptors with two and three insertions ([+] / [n+]) into lists that already have >= 2 elements, with
+    // further allocations after the last insertion: a failed call must take out ALL the cells it inserted
+    PSET(0, "runs[0].name=first");
+    PSET(0, "runs[1].name=second");
+    PSET(0, "runs[+].stages[+].gain.db=1");            // two insertions, then two map levels
+    PSET(0, "runs[0+].stages[+].taps[+]=3");           // three insertions
+    PSET(0, "runs[1+].stages[0+].x[1+].y[+]=v");       // four, with padding by [1+] on a new list
+    PSET(0, "runs[3].stages[0+].gain[+].more=2");      // existing cell, two insertions below it (one retypes a map)
+    PSET(0, "l2[0]=a");
+    PSET(0, "l2[1][0]=b");
+    PSET(0, "l2[1][1]=c");
+    PSET(0, "l2[1+][0+]=v");                            // insert a cell, make it a list, insert into that
+    PSET(0, "l2[2][1+][+].k=w");                        // existing inner list: two insertions
+    PSUB(0, "runs[+].stages[+].sub");                   // the same through set_subtree
     PDEL(0, ".");
+    // root list
+    PSET(1, "[0].x[0]=p");
+    PSET(1, "[0].x[1]=q");
+    PSET(1, "[1]=r");
+    PSET(1, "[0+].x[1+].y[+]=v");                       // three insertions starting at the root
+    PSET(1, "[1].x[1+].y[+].z=w");                      // existing cell and list: two insertions
+    PSET(1, "[+][+][+]=deep");                          // three appends in a row
+    PDEL(1, ".");
 }
 
 // --- S18: vnaproperty_copy and vnaproperty_import_yaml_from_string onto non-empty roots of another type
@@ -1286,6 +1308,15 @@ static void script_vnacal_property_retype(Script &S) {
         VPSET("x[+]=again");           // null value   -> list
         VPDEL("x");
         VPSET("keep.list[1]=kept");
+        // two and three insertions in one descriptor
+        if (which == 0) {
+            VPSET("runs[+].stages[+].g=1");             // into lists the call creates itself
+        } else {
+            VPSET("runs[0].n=a");
+            VPSET("runs[1].n=b");
+            VPSET("runs[+].stages[+].gain.db=1");       // into an existing 2-element list
+            VPSET("runs[0+].stages[0+].taps[+]=2");
+        }
 #undef VPSET
 #undef VPSUB
 #undef VPDEL
